@@ -11,6 +11,8 @@ R10  the Python reference, interpreted in full (ZoneSpecifier.init_for_year and 
 R11  ExtendedZoneProcessor, interpreted in full (acv/aeval.py, typed: init(), the match and transition search, the transition
      pool, the brokers over the rendered tables), gives the same total offset, DST offset and abbreviation as the reference
      for every instant of the family.
+R12  the same two interpreters on shipped data: the extended processor on the shipped zonedbx tables of a sample of zones, the
+     reference on the TZ lines recorded beside those entries (compiled again by the interpreted compiler).
 The instants: every hour of the two days around each New Year and around every transition the reference itself reports,
 plus the middle of every month, for the years 2003..2007."""
 import datetime as _dt
@@ -344,6 +346,7 @@ def run_rules(R, cfg, lib, zs):
     infos, T, tzdb = compile_models(cfg)
     reference, instants_of = option_rule(R, cfg, zs, infos)
     processor_rule(R, cfg, lib, zs, T, reference, instants_of)
+    shipped_reference_rule(R, cfg, lib, zs)
     return infos, T, reference, instants_of
 
 
@@ -390,4 +393,103 @@ def shipped_boundary_rule(R, cfg, lib, rid='G'):
             e = diffs[0]
             R.violation(rid, c, loc_b, '%s at %s UTC: the basic processor answers (total offset, DST offset, abbreviation) = %s, the extended processor %s; %d of %d instants differ'
                         % (name, EPOCH + _dt.timedelta(seconds=e), bas[name][e], ext[name][e], len(diffs), len(instants_of[name])))
+
+
+# shipped zones with the constructs that make the extended algorithm hard: eras ending at s / u times, fixed RULES offsets, negative
+# SAVE, several LETTERs, half-hour DST, a skipped day, rules on 1 January, policies that change mid-year
+SHIPPED_SAMPLE = ['Europe/Istanbul', 'Asia/Famagusta', 'Europe/Dublin', 'Africa/Casablanca', 'Australia/Lord_Howe', 'Pacific/Apia', 'America/Caracas',
+                  'Antarctica/Macquarie', 'Antarctica/Troll', 'America/St_Johns', 'Asia/Gaza', 'Africa/Windhoek', 'America/Los_Angeles', 'Europe/Moscow',
+                  'Asia/Almaty', 'America/Argentina/San_Luis', 'Antarctica/Casey', 'Asia/Pyongyang', 'Europe/Volgograd', 'America/Belize']
+SHIPPED_YEARS = (2000, 2004, 2008, 2010, 2011, 2012, 2014, 2015, 2016, 2017, 2018, 2019)
+
+
+def shipped_reference_rule(R, cfg, lib, zs):
+    """R12: "given the same zone data": the TZ lines recorded beside the shipped zonedbx entries of a sample of zones (C12-R1 holds the
+    tables to those lines) are compiled again by the interpreted compiler and given to the interpreted reference; the shipped
+    zonedbx tables themselves go to the interpreted ExtendedZoneProcessor; both are asked about the hours around every transition the
+    reference reports in the sample years, around those New Years and about the middle of every month."""
+    from . import pipeline, tables
+    from .pyeval import PyEval, Raised
+    R.rule('R12', 'ExtendedZoneProcessor on the shipped zonedbx tables agrees with the reference on the recorded lines of the same entries (a sample of zones, interpreted in full)', floor=3)
+    X = tables.CxxTables(cfg, 'zonedbx')
+    names = X.names()
+    thorough = cfg.tier == 'thorough'
+    sample = [z for z in SHIPPED_SAMPLE if z in names]
+    if not thorough:
+        sample = sample[:6]
+    years = SHIPPED_YEARS if thorough else SHIPPED_YEARS[3:9]
+    if len(sample) < 3:
+        raise AnalysisError('fewer than three of the sample zones are in zonedbx (%s)' % sample)
+    lines, pols = [], set()
+    for z in sample:
+        eras = X.zone_eras(names[z])
+        for i, e in enumerate(eras):
+            flds = (e.comment or '').split()
+            lines.append(('Zone\t%s\t' % z if i == 0 else '\t\t\t') + '\t'.join(flds))
+            zp = e['zonePolicy']
+            if zp is not None and hasattr(zp, 'name'):
+                pols.add(zp.name)
+    rule_lines = []
+    for psym in sorted(pols):
+        for r in X.policy_rules(psym):
+            c = (r.comment or '').split()
+            if c[:1] == ['Anchor:']:
+                continue
+            rule_lines.append('\t'.join(c))
+    text = '\n'.join(rule_lines + lines) + '\n'
+    try:
+        tzdb, _raw = pipeline.compile_text(cfg, text, 'extended', start_year=X.context['startYear'], until_year=X.context['untilYear'])
+    except pipeline.Raised as r_:
+        raise AnalysisError('the recorded lines of the sample zones do not compile: %s' % r_.what)
+    gone = [z for z in sample if z not in tzdb['zones_map']]
+    if gone:
+        raise AnalysisError('recompiling the recorded lines drops %s (%s)' % (gone, {z: tzdb['removed_zones'].get(z) for z in gone}))
+    ev = PyEval(cfg, max_steps=50000000)
+    ing = ev.module('tools/zonedb/ingenerator.py')
+    init = ing.fn('InlineGenerator.__init__')
+    obj = ev.instantiate(ing, 'InlineGenerator', kwargs={p_: tzdb[p_] for p_ in init.params[1:]})
+    infos, _p = ev.call(ing, 'InlineGenerator.generate_maps', recv=obj)
+    ctor = zs.fn('ZoneSpecifier.__init__')
+    first = [p_ for p_ in ctor.params if p_ != 'self'][0]
+    reference, instants_of = {}, {}
+    loc = zs.fn('ZoneSpecifier.init_for_year').loc
+    for z in sample:
+        pev = PyEval(cfg, max_steps=2000000000)
+        try:
+            spec = pev.instantiate(zs, 'ZoneSpecifier', kwargs={first: infos[z]})
+            inst = set()
+            for y in years:
+                pev.call(zs, 'ZoneSpecifier.init_for_year', [y], recv=spec)
+                for tr in spec.attrs.get('transitions') or []:
+                    s_ = tr.attrs.get('startEpochSecond')
+                    if isinstance(s_, int):
+                        inst.update(s_ + 3600 * h for h in (-2, -1, 0, 1, 2))
+                        inst.update((s_ - 1, s_ + 1))
+                ny = _dt.datetime(y, 1, 1)
+                inst.update(_secs(ny + _dt.timedelta(hours=h)) for h in (-14, -1, 0, 1, 14))
+                inst.update(_secs(_dt.datetime(y, m, 15, 12, 0)) for m in range(1, 13))
+            lo, hi = _secs(_dt.datetime(years[0], 1, 2)), _secs(_dt.datetime(years[-1], 12, 30))
+            instants = sorted(e for e in inst if lo <= e <= hi and (EPOCH + _dt.timedelta(seconds=e)).year in years)
+            got = {}
+            for e in instants:
+                r = pev.call(zs, 'ZoneSpecifier.get_timezone_info_for_seconds', [e], recv=spec)
+                got[e] = (r.total_offset, r.dst_offset, r.abbrev)
+        except Raised as r_:
+            R.instance('R12', 'zonedbx~reference:%s' % z, loc)
+            R.violation('R12', 'zonedbx~reference:%s' % z, loc, '%s: the reference raises %s on the recorded lines' % (z, r_.what))
+            continue
+        reference[z], instants_of[z] = got, instants
+    answers, cloc = processor_answers(lib, 'extended', X, sorted(reference), instants_of)
+    for z in sorted(reference):
+        c = 'zonedbx~reference:%s' % z
+        got = answers[z]
+        R.instance('R12', c, cloc, '%d instants' % len(instants_of[z]))
+        if isinstance(got, str):
+            R.violation('R12', c, cloc, '%s: %s' % (z, got))
+            continue
+        diffs = [e for e in instants_of[z] if got[e] != reference[z][e]]
+        if diffs:
+            e = diffs[0]
+            R.violation('R12', c, cloc, '%s at %s UTC: the extended processor on the shipped tables answers (total offset, DST offset, abbreviation) = %s, the reference on the recorded lines %s '
+                        '(%d of %d instants differ)' % (z, EPOCH + _dt.timedelta(seconds=e), got[e], reference[z][e], len(diffs), len(instants_of[z])))
 
